@@ -15,7 +15,11 @@ Import ListNotations.
      list::emplace_back, resize(k, args...)) store T(args...) -- direct-initialisation, as the std:: containers do;
      the scripts' `emplace2 n x` / `resize2 k n x` denote VEmplace/VResize with the value code of T(n, x);
    - "storage they own" includes its alignment: every element lives at an address that is a multiple of
-     alignof(T), inline as well as on the heap (element type alignas(64), oracle kind `alignment`). *)
+     alignof(T), inline as well as on the heap (element type alignas(64), oracle kind `alignment`);
+   - relocation is the xfer_loop of the models for EVERY element type: one copy/move construction per element (an
+     element type with user-provided copy/move constructors and no destructor must not be moved bytewise);
+   - `resize(n)` / `dyn_array(n)` construct the new elements by VALUE-initialisation (model value 0 = what
+     std::vector<T>(n) holds: zero scalars, null pointers, null member pointers), whatever the fresh block contained. *)
 
 (* ------------------------------------------------------------------------------------------ vector
    [ref_step] is the operation on lists (push = snoc, pop = removelast/last, resize = firstn / padding with the
